@@ -506,6 +506,8 @@ class Engine(Interp):
                             muts.append((ai, mv))
                         except (Unsupported, Diverge):
                             ok_m = False
+                if type(ret) is I and ret.vid in rst.prov:
+                    ok_m = False        # the result's provenance (comparison / all-any) must reach the caller
                 if ok_m:
                     try:
                         self._sig(rst, ret, True, 0)
